@@ -563,6 +563,13 @@ def run_c08(ctx):
             ctx.t("reload")
             val, _ = m.call("loader", m.load_crop, oracle="reload-raised")
             m.long_crop = val
+        # mostly every operation is followed by the progress queries; sometimes the
+        # observers stay silent for a while, so that several changes (e.g. a deletion
+        # and a compensating grow, which leave the file counts alone) lie between two
+        # queries of the same long-lived object
+        if t.flag(1, 3, "no-query-after-op"):
+            ctx.stats["ops-without-query"] += 1
+            continue
         query_progress(m, model, "after op {} ({})".format(nops, op))
     # growing the missing batches grows exactly those and makes the crop ready
     calllog.POISON.clear()
